@@ -186,7 +186,14 @@ func typeArg(t *spec.Type) any {
 
 func objectBody(t *spec.Type) {
 	var req []string
+	if t.Extend != "" {
+		dsl.Extend(expr.Root.UserType(t.Extend))
+		req = append(req, t.RequiredRepeat...)
+	}
 	for _, f := range t.Fields {
+		if f.Inherited {
+			continue
+		}
 		attribute(f)
 		if f.Required {
 			req = append(req, f.Name)
